@@ -44,6 +44,9 @@ func checkC05(w *World, r *Result) {
 	// the table-name replacer used for custom queries (rule shared with C16)
 	subRe := &Result{}
 	checkRegexFacts(w, subRe)
+	// custom queries are generated statements too: their placeholders must be numbered like the arguments of the
+	// generated function (rule shared with C16)
+	checkCustomQuery(w, subRe)
 	for _, o := range subRe.Obs {
 		r.add(o)
 	}
